@@ -11,6 +11,7 @@
 //   T <round> <round> ...          one line per thread (C01/C02)
 //   prog ...                       C03/C04/C05 program description (see parse_*)
 #include <rapidcheck.h>
+#include <sys/time.h>
 #include <dirent.h>
 #include <poll.h>
 #include "../../vlib/vlib.h"
@@ -808,6 +809,16 @@ Outcome run_case_forked(const Case &c) {
     g_out = pfd[1];
     dup2(pfd[1], 2);
     alarm(30);
+    // a case takes milliseconds (200000 scheduling steps about a second): a child that has burnt 12 s of its own CPU time is a thread
+    // spinning inside a library call without ever reaching a scheduling point - with the baton in its hand nobody else can run, so the
+    // call never returns.  CPU time of the process (ITIMER_VIRTUAL), not wall time: load cannot trigger it.
+    signal(SIGVTALRM, [](int) {
+      const char *api = vs::self && vs::self->in_api ? vs::self->api_name : "(harness code)";
+      if (!g_as_c20) dprintf(g_out, "RESULT fail no-return the case burnt 12 s of CPU time without reaching a scheduling point: the thread holding the scheduler baton spins inside %s and the call never returns (every other thread of the program can only run when it yields)\n", api);
+      else dprintf(g_out, "RESULT ok 0 0\n");
+      _exit(1);
+    });
+    { struct itimerval it; memset(&it, 0, sizeof it); it.it_value.tv_sec = 12; setitimer(ITIMER_VIRTUAL, &it, NULL); }
     run_child(c);
     _exit(0);
   }
